@@ -9,6 +9,7 @@ CONSTANTS
   InvalidSel <- InvFew
   MaxBatches = 2
   MaxOps = 1
+  SymHooks = TRUE
   MinOps = 0
   MaxTotalOps = 2
   MaxInvalid = 0
